@@ -92,6 +92,10 @@ func check(c Case) error {
 	})
 	f, err := ctab.Flatten(t)
 	if err != nil {
+		// the same spec built without the Optimize call in between: if that table is sound, the call damaged it
+		if _, plainErr := ctab.Flatten(c.Table.Build()); plainErr == nil {
+			return vk.Errf("after an Optimize call on its earlier weights and a re-weighting in place, %s is no longer a table: %v (built without that call it is sound: Optimize changed the table it was given)", c.Table.String(), err)
+		}
 		return vk.Harnessf("table: %v", err)
 	}
 	what := c.Table.String()
